@@ -655,18 +655,10 @@ class EncodingDetector:
         if isinstance(data, str):
             # Unicode data cannot have a byte-order mark.
             return data, encoding
-        if (
-            (len(data) >= 4)
-            and (data[:2] == b"\xfe\xff")
-            and (data[2:4] != b"\x00\x00")
-        ):
+        if (data[:2] == b"\xfe\xff") and (data[2:4] != b"\x00\x00"):
             encoding = "utf-16be"
             data = data[2:]
-        elif (
-            (len(data) >= 4)
-            and (data[:2] == b"\xff\xfe")
-            and (data[2:4] != b"\x00\x00")
-        ):
+        elif (data[:2] == b"\xff\xfe") and (data[2:4] != b"\x00\x00"):
             encoding = "utf-16le"
             data = data[2:]
         elif data[:3] == b"\xef\xbb\xbf":
